@@ -152,6 +152,20 @@ func (r *runner) genHistory(stub bool) *history {
 				if rng.Intn(15) == 0 {
 					o.Fns = nil
 				}
+				// duplicates inside one call in every arrangement (sorted, unsorted, adjacent,
+				// separated), also against names the role already has, and names that are prefixes
+				// of each other ("f" < "f0" < "f0\x00" < "f00")
+				if rng.Intn(3) == 0 {
+					a, b, x := rng.Intn(len(w.fns)), rng.Intn(len(w.fns)), rng.Intn(len(w.fns))
+					if rng.Intn(3) == 0 {
+						pre := []int{8, 0, 10, 9} // f, f0, f0\x00, f00
+						a, b, x = pre[rng.Intn(4)], pre[rng.Intn(4)], pre[rng.Intn(4)]
+					}
+					if fs := g.funcs[o.Role]; len(fs) > 0 && rng.Intn(3) == 0 {
+						x = fs[rng.Intn(len(fs))]
+					}
+					o.Fns = [][]int{{a, a}, {a, b, b}, {b, a, b}, {b, b, a}, {a, b, a}, {x, a, b, a}, {a, b, x, b, a}, {a, a, a}, {b, a, x, a}, {a, x, b, x}}[rng.Intn(10)]
+				}
 				actor = o.A
 			case p < 30:
 				o.Kind = "ids"
@@ -166,6 +180,11 @@ func (r *runner) genHistory(stub bool) *history {
 				}
 				if rng.Intn(12) == 0 {
 					o.Persons = append(o.Persons, anyID())
+				}
+				// the same ONT ID several times in one call: adjacent, separated, first/last
+				if rng.Intn(4) == 0 {
+					a, b, x := regular(), regular(), regular()
+					o.Persons = [][]int{{a, a}, {a, b, b}, {b, a, b}, {b, b, a}, {a, b, a}, {x, a, b, a}, {a, a, a}, {a, b, x, b, a}}[rng.Intn(8)]
 				}
 				// bias towards the finding's precondition: assign a role to someone holding it by delegation
 				if len(g.delegs) > 0 && rng.Intn(4) == 0 {
